@@ -55,6 +55,8 @@ def build_cfg(repo, tier):
         "run_timeout": 120 if tier == "quick" else 600,
     }
     if tier == "thorough":
+        cfg["ext_sweep"] = True
+        cfg["ext_sweep_from"] = 60000  # run indices 60000.. are the dense sweep (after sweep + first random stretch)
         cfg["long_corpus"] = [(n, workload.split_items(x)) for n, x in files if len(x) >= 8000]
         cfg["corpus"] += [(n, workload.split_items(x)) for n, x in files if 8000 <= len(x) < 40000]
     return cfg
@@ -194,7 +196,7 @@ def write_evidence(prop, tier, seed, agg, wall, det, extra_assumptions=()):
         "runs_per_hour": int(runs_per_hour),
         "seeds": {"VERIF_SEED": seed, "runs": "run i uses PRNG H('run', property, VERIF_SEED, i), i = 0..%d" % max(0, agg.runs - 1)},
         "faults_fired": dict(sorted(agg.fired.items())),
-        "systematic_sweep": {"cases_total": sweep.n_cases(prop), "cases_run": agg.sweep_runs, "what": "enumerated fault points (C12: truncation / seam-abort / abandoned lexer at every token boundary of every construct snippet, line-abort ladder) or pre-emption points (C13: A runs k steps, B runs to completion, A finishes, for every k; generator / visitor pairs at line granularity with stride 9); a quick run covers a seed-dependent slice, a thorough run all of them"},
+        "systematic_sweep": {"cases_total": sweep.n_cases(prop), "dense_line_sweep_cases_thorough_only": len(sweep.ext_cases(prop)), "cases_run": agg.sweep_runs, "what": "enumerated fault points (C12: truncation / seam-abort / abandoned lexer at every token boundary of every construct snippet, line-abort ladder) or pre-emption points (C13: A runs k steps, B runs to completion, A finishes, for every k; generator / visitor pairs at line granularity with stride 9); a quick run covers a seed-dependent slice, a thorough run all of them"},
         "isolation": {"runs_on_fresh_module_sets": agg.runs - agg.fork_runs, "runs_with_every_execution_in_a_freshly_forked_process": agg.fork_runs, "note": "a few workers never execute pycparser themselves and fork a pristine child for the run and for each baseline; this covers state a change might park outside the pycparser modules"},
         "fault_injecting_runs": agg.faulty_runs,
         "fault_free_runs": agg.runs - agg.faulty_runs,
